@@ -160,10 +160,23 @@ def run(ctx):
         if cb.crate != AG:
             continue
         recvs = [x for x in cb.calls() if x.is_in("std::sync::mpsc", "Receiver::recv_timeout", "Receiver::recv", "Receiver::try_recv", "Receiver::recv_deadline")]
-        ctx.check(len(recvs) == 1, "R10.4", key + "#single-receive", loc(cb), "worker loop should have one receive site, found %d" % len(recvs))
-        if len(recvs) != 1:
+        ctx.check(len(recvs) >= 1, "R10.4", key + "#receives", loc(cb), "worker loop has no receive site")
+        if not recvs:
             continue
-        r = recvs[0]
+        # every receive site must handle an Entry message: a site that only looks for Flush silently drops entries
+        for rx in recvs:
+            took = False
+            for i in cb.live_blocks():
+                for s_ in cb.stmts(i):
+                    if s_["k"] == "assign" and s_["rv"]["k"] == "use" and "move" in s_["rv"]["op"]:
+                        src = s_["rv"]["op"]["move"]
+                        if src["l"] == rx.dest["l"] and "Entry" in [e[2] for e in src.get("p", []) if e[0] == "dc"]:
+                            took = True
+            ctx.check(took, "R10.4", key + "#receive-site-handles-entries@%d" % recvs.index(rx), loc(cb, rx.bb),
+                      "a message taken off the channel at this receive site is only examined for Flush requests: an Entry received here is dropped "
+                      "unmerged (inputs are not conserved)")
+        blocking = [x for x in recvs if x.name != "try_recv"] or recvs
+        r = blocking[0]
         pr = Prov(cb)
         ok_t = err_t = None
         for sw, tg, oth in switch_on_call_result(cb, r):
@@ -179,7 +192,7 @@ def run(ctx):
                 if s["k"] == "assign" and s["rv"]["k"] == "use" and "move" in s["rv"]["op"]:
                     src = s["rv"]["op"]["move"]
                     names = [e[2] for e in src.get("p", []) if e[0] == "dc"]
-                    if src["l"] == r.dest["l"] and "Entry" in names and not s["lhs"].get("p"):
+                    if src["l"] in [x.dest["l"] for x in recvs] and "Entry" in names and not s["lhs"].get("p"):
                         starts.append(s["lhs"]["l"])
         ctx.check(bool(starts), "R10.4", key + "#entry-message-taken", loc(cb), "the Entry message payload is never taken out")
         for st in starts:
